@@ -1,5 +1,6 @@
 pub mod analysis;
 pub mod ast;
+pub mod canon;
 pub mod encode;
 pub mod satsize;
 pub mod spec;
